@@ -1,4 +1,5 @@
 import Walrus.Module
+import Walrus.BodiesOK
 import Walrus.Driver.CodeD
 
 /-! `module <text>` — text format documented in harness/src/modtext.rs; the answer is the same
@@ -198,8 +199,23 @@ def showModule (m : ModuleM) : String :=
   (match m.names with | some n => " NM" ++ showNames n | none => "")
 
 def handleModule (ws : List String) : String :=
-  match roundTripModule (parseModule ws) with
-  | some o => showModule o
-  | none => "panic"
+  let m := parseModule ws
+  -- the hypotheses of `C02.parse_then_emit_answers_checked`, evaluated on this case (when the
+  -- model's parse of the code-related sections succeeds; otherwise the answer is `panic` as before)
+  let hyp : Option String :=
+    if m.code.length != m.funcs.length then none else
+    match parseCode ⟨m.sigs, importedCount m "f", m.code.zip m.funcs |>.map fun p => ⟨p.2, p.1.1, p.1.2⟩⟩ with
+    | none => none
+    | some pfs =>
+      if !bodiesOKc m pfs then some "body-not-well-nested"
+      else if !sectionsOK m then some "section-not-well-formed"
+      else if !funcRefsOK m then some "function-reference-out-of-range"
+      else none
+  match hyp with
+  | some w => w
+  | none =>
+    match roundTripModule m with
+    | some o => showModule o
+    | none => "panic"
 
 end Walrus.Driver
